@@ -247,12 +247,17 @@ H(name="cmd_ondemand_file", crate="kestrel-cli", mod="commands::verif_cmd", prop
 H(name="cmd_gen_key_fs", crate="kestrel-cli", mod="commands::verif_cmd", props=["C14", "C13", "C16", "C07", "C12"], est_s=120, replay="model",
   desc="gen_key(Some(path)): invalid name / missing password => Err and the path untouched; else Ok, earlier contents are a byte prefix of the new contents (existing file never re-created), new file created once, flushed; private key = CSPRNG draw 1, salt = draw 2 (distinct), PublicKey = encode(derive_public(draw 1)), locked under the user's password",
   funcs=["commands::gen_key", "commands::open_output", "commands::OnDemandFile"], bounds="output path absent | present with any 0..4 bytes; one key generation from that arbitrary state (= the inductive step for any history)", env=CMD_ENV, outside=CMD_OUT + "; that the appended text parses (C17)")
-for _c, _p, _t in (("cmd_decrypt_flow", ["C12", "C13", "C05"], "thorough"), ("cmd_encrypt_flow", ["C12", "C13", "C07", "C05"], "thorough"),
-                   ("cmd_pass_encrypt_flow", ["C12", "C13", "C07", "C02"], "thorough"), ("cmd_pass_decrypt_flow", ["C12", "C13", "C02"], "thorough")):
-    H(name=_c, crate="kestrel-cli", mod="commands::verif_cmd", props=_p, est_s=600, timeout=(5400 if _t == "thorough" else 2400), tier=_t, optional=(_t == "thorough"), mem_gb=16, replay="model", unwindset=BT_UNWIND,
-      desc="command returns Ok iff every pre-check passed and the library call returned Ok (errors never swallowed, success never manufactured); output path untouched unless and until the library writes; then it holds exactly what the library wrote; keys/passwords/salts handed to the library are the ones obtained (sender looked up by the authenticated key; salt = fresh CSPRNG draw)",
-      funcs=["commands::" + _c.replace("cmd_", "").replace("_flow", ""), "commands::open_input", "commands::open_output", "commands::OnDemandFile"],
-      bounds="input file argument (present or missing); output path absent | present (0..4 bytes); keyring missing / 1..2 entries / with or without private key; name a|b|absent; every outcome of password prompt, unlock, checksum, and library call with 0..2 writes before its result", env=CMD_ENV, outside=CMD_OUT)
+# The four commands that move data. Quick tier for C12/C13 (their main subject), thorough tier for the properties they
+# only touch (C05/C07/C02). Each command is split by which keyring entry is named, so that every harness has a concrete
+# keyring shape (a symbolic number of entries ran the solver out of memory at 44 GB).
+for _c, _p in (("cmd_decrypt_flow", ["C12", "C13", "C05", "C10", "C03"]), ("cmd_decrypt_flow_other", ["C12", "C13", "C05"]),
+               ("cmd_encrypt_flow", ["C12", "C13", "C07", "C05", "C10"]), ("cmd_encrypt_flow_other", ["C12", "C13", "C05"]),
+               ("cmd_pass_encrypt_flow", ["C12", "C13", "C07", "C02", "C10"]), ("cmd_pass_decrypt_flow", ["C12", "C13", "C02", "C10", "C03"])):
+    H(name=_c, crate="kestrel-cli", mod="commands::verif_cmd", props=_p, quick_props=["C12", "C13"], est_s=(320 if "pass" not in _c else 220), timeout=2400,
+      mem_gb=(20 if "pass" not in _c else 14), rlimit_gb=(44 if "pass" not in _c else 30), replay="model",
+      desc="command returns Ok iff every pre-check passed and the library call returned Ok (errors of every kind - authentication, trailing data, chunk length, read/write failures incl. BrokenPipe - are never swallowed, success never manufactured); output path untouched unless and until the library writes; then it holds exactly what the library wrote and is never removed or renamed; keys/passwords/salts handed to the library are the ones obtained (sender looked up by the authenticated key; salt = fresh CSPRNG draw)",
+      funcs=["commands::" + _c.replace("cmd_", "").replace("_flow", "").replace("_other", ""), "commands::open_input", "commands::open_output", "commands::OnDemandFile"],
+      bounds="input file argument (present or missing); output path absent | present (0..4 bytes); keyring missing | two entries (a: with or without private key, b: public only); names a | b | z (absent) split over the harness pair; every outcome of password prompt, unlock, checksum, and of the library call (0..2 writes before any of its error kinds or success)", env=CMD_ENV + ["E-CUT: anyhow replaced by a plain-struct stand-in (harness/env/anyhow-min); Stdout/Stdin methods reachable through Box<dyn Write/Read> accept everything"], outside=CMD_OUT + "; stdin/stdout instead of file arguments")
 H(name="cmd_change_pass", crate="kestrel-cli", mod="commands::verif_cmd", props=["C16", "C07", "C12"], est_s=120, replay="model",
   desc="change_pass: unlock(given blob, OLD password); lock(THAT key, NEW password, salt = fresh 32-byte CSPRNG draw); one line printed; any failing step => Err, nothing locked/printed",
   funcs=["commands::change_pass"], bounds="one step from an arbitrary (key, blob, passwords) state", env=CMD_ENV, outside=CMD_OUT + "; text of the printed line")
@@ -269,10 +274,10 @@ H(name="main_slice_args", crate="kestrel-cli", mod="verif_main", props=["C09", "
 
 # std's substring search nests loops (CharSearcher::next_match -> memchr): with one global bound the nesting is
 # quadratic and symex runs out of memory inside the first `lines().next()`. Per-loop bounds for lines <= 62 bytes:
-STR_UNWIND = ["_RNvNtNtCs8xvirJzNMvV_4core5slice6memchr12memchr_naiveCskrTDP3ZfTEe_7kestrel.0:17",
-              "_RNvNvNtNtCs8xvirJzNMvV_4core5slice6memchr14memchr_aligned7runtimeCskrTDP3ZfTEe_7kestrel.0:4",
-              "_RNvXs_NtNtCs8xvirJzNMvV_4core3str7patternNtB4_12CharSearcherNtB4_8Searcher10next_matchCskrTDP3ZfTEe_7kestrel.0:4",
-              "_RNvMs2_NtCskrTDP3ZfTEe_7kestrel7keyringNtB5_7Keyring12parse_config.0:8"]
+STR_UNWIND = ["_RNvNtNtCs8xvirJzNMvV_4core5slice6memchr12memchr_naive{CLI}.0:17",
+              "_RNvNvNtNtCs8xvirJzNMvV_4core5slice6memchr14memchr_aligned7runtime{CLI}.0:4",
+              "_RNvXs_NtNtCs8xvirJzNMvV_4core3str7patternNtB4_12CharSearcherNtB4_8Searcher10next_match{CLI}.0:4",
+              "_RNvMs2_Nt{CLI}7keyringNtB5_7Keyring12parse_config.0:8"]
 PARSER_OUT = "arbitrary UTF-8 texts and exhaustive token sequences: std's str::lines/trim/retain/memchr on symbolic text are out of reach of the bit-blasting back end in quick-tier time (DESIGN 6.1)"
 H(name="c17_name_roundtrip", crate="kestrel-cli", mod="keyring::verif_keyring", unwindset=STR_UNWIND, props=["C17", "C14"], tier="thorough", optional=True, est_s=3000, timeout=5400, mem_gb=16, replay="model",
   desc="the [Key] section text key generation writes (transcribed format) for ANY accepted name of 1..2 ASCII bytes without TAB parses back to exactly that name and public key, and is found by get_key",
